@@ -44,8 +44,120 @@ def readTris {α} : Nat → Nat → List α → Option (List (Tri α × Nat) × 
       let (ts, xs) ← readTris n (i + 1) xs
       some ((⟨a, b, c⟩, i) :: ts, xs)
 
+/-! ### transformed fields: token parsers shared by the Float and the Rat side
+
+shape: `S ce r` (sphere / circle) | `R lo hi` | `C p1 p2 r`;  transform list: `n` then `T o` | `K k` | `M m…` -/
+
+def takeN {α} (num : String → Option α) : Nat → List String → Option (List α × List String)
+  | 0, ws => some ([], ws)
+  | n + 1, w :: ws => do
+      let x ← num w
+      let (xs, ws) ← takeN num n ws
+      some (x :: xs, ws)
+  | _, [] => none
+
+def pShape3 {α} (num : String → Option α) : List String → Option (Shape3 α × List String)
+  | "S" :: ws => do
+      let (xs, ws) ← takeN num 4 ws
+      match xs with | [a, b, c, r] => some (.sphere ⟨a, b, c⟩ r, ws) | _ => none
+  | "R" :: ws => do
+      let (xs, ws) ← takeN num 6 ws
+      match xs with | [a, b, c, d, e, f] => some (.rect ⟨a, b, c⟩ ⟨d, e, f⟩, ws) | _ => none
+  | "C" :: ws => do
+      let (xs, ws) ← takeN num 7 ws
+      match xs with | [a, b, c, d, e, f, r] => some (.capsule ⟨a, b, c⟩ ⟨d, e, f⟩ r, ws) | _ => none
+  | _ => none
+
+def pShape2 {α} (num : String → Option α) : List String → Option (Shape2 α × List String)
+  | "S" :: ws => do
+      let (xs, ws) ← takeN num 3 ws
+      match xs with | [a, b, r] => some (.circle ⟨a, b⟩ r, ws) | _ => none
+  | "R" :: ws => do
+      let (xs, ws) ← takeN num 4 ws
+      match xs with | [a, b, d, e] => some (.rect ⟨a, b⟩ ⟨d, e⟩, ws) | _ => none
+  | "C" :: ws => do
+      let (xs, ws) ← takeN num 5 ws
+      match xs with | [a, b, d, e, r] => some (.capsule ⟨a, b⟩ ⟨d, e⟩ r, ws) | _ => none
+  | _ => none
+
+def pXf3 {α} (num : String → Option α) : List String → Option (Xf3 α × List String)
+  | "T" :: ws => do
+      let (xs, ws) ← takeN num 3 ws
+      match xs with | [a, b, c] => some (.translate ⟨a, b, c⟩, ws) | _ => none
+  | "K" :: ws => do
+      let (xs, ws) ← takeN num 1 ws
+      match xs with | [k] => some (.scale k, ws) | _ => none
+  | "M" :: ws => do
+      let (xs, ws) ← takeN num 9 ws
+      match xs with
+      | [a, b, c, d, e, f, g, h, i] => some (.rot ⟨a, b, c, d, e, f, g, h, i⟩, ws)
+      | _ => none
+  | _ => none
+
+def pXf2 {α} (num : String → Option α) : List String → Option (Xf2 α × List String)
+  | "T" :: ws => do
+      let (xs, ws) ← takeN num 2 ws
+      match xs with | [a, b] => some (.translate ⟨a, b⟩, ws) | _ => none
+  | "K" :: ws => do
+      let (xs, ws) ← takeN num 1 ws
+      match xs with | [k] => some (.scale k, ws) | _ => none
+  | "M" :: ws => do
+      let (xs, ws) ← takeN num 4 ws
+      match xs with | [a, b, c, d] => some (.rot ⟨a, b, c, d⟩, ws) | _ => none
+  | _ => none
+
+def pMany {β} (one : List String → Option (β × List String)) : Nat → List String → Option (List β × List String)
+  | 0, ws => some ([], ws)
+  | n + 1, ws => do
+      let (x, ws) ← one ws
+      let (xs, ws) ← pMany one n ws
+      some (x :: xs, ws)
+
+def pXfs3 {α} (num : String → Option α) : List String → Option (List (Xf3 α) × List String)
+  | n :: ws => do pMany (pXf3 num) (← n.toNat?) ws
+  | [] => none
+def pXfs2 {α} (num : String → Option α) : List String → Option (List (Xf2 α) × List String)
+  | n :: ws => do pMany (pXf2 num) (← n.toNat?) ws
+  | [] => none
+
+def pV3 {α} (num : String → Option α) (ws : List String) : Option (V3 α × List String) := do
+  let (xs, ws) ← takeN num 3 ws
+  match xs with | [a, b, c] => some (⟨a, b, c⟩, ws) | _ => none
+def pV2 {α} (num : String → Option α) (ws : List String) : Option (V2 α × List String) := do
+  let (xs, ws) ← takeN num 2 ws
+  match xs with | [a, b] => some (⟨a, b⟩, ws) | _ => none
+
+/-- `b.tsdf3/2`: `TransformSDF(t, shape).SDF(q)`; `b.tcoll3/2`: `ColliderToSDF(TransformCollider(t, shape), iters).SDF(q)`
+(`contains` = the real `ColliderSolid.Contains(q)`), at `Float`, bit for bit. -/
+def handleXformBits (kind : String) (ws : List String) : Option String := do
+  match kind, ws with
+  | "b.tsdf3", ws =>
+      let (sh, ws) ← pShape3 floatOfHex ws
+      let (ts, ws) ← pXfs3 floatOfHex ws
+      let (q, _) ← pV3 floatOfHex ws
+      some (hx (transformSDF3 ts (sh.sdf envF) q))
+  | "b.tsdf2", ws =>
+      let (sh, ws) ← pShape2 floatOfHex ws
+      let (ts, ws) ← pXfs2 floatOfHex ws
+      let (q, _) ← pV2 floatOfHex ws
+      some (hx (transformSDF2 ts (sh.sdf envF) q))
+  | "b.tcoll3", iters :: contains :: ws =>
+      let iters ← iters.toNat?
+      let (sh, ws) ← pShape3 floatOfHex ws
+      let (ts, ws) ← pXfs3 floatOfHex ws
+      let (q, _) ← pV3 floatOfHex ws
+      some (hx (transformedColliderSDF3 (2 : Float) ts (sh.sdf envF) (contains == "1") iters q))
+  | "b.tcoll2", iters :: contains :: ws =>
+      let iters ← iters.toNat?
+      let (sh, ws) ← pShape2 floatOfHex ws
+      let (ts, ws) ← pXfs2 floatOfHex ws
+      let (q, _) ← pV2 floatOfHex ws
+      some (hx (transformedColliderSDF2 (2 : Float) ts (sh.sdf envF) (contains == "1") iters q))
+  | _, _ => none
+
 def handleBits (kind : String) (ws : List String) : Option String := do
   match kind with
+  | "b.tsdf3" | "b.tsdf2" | "b.tcoll3" | "b.tcoll2" => handleXformBits kind ws
   | "b.mesh" =>
       match ws with
       | inb :: cnt :: gf :: n :: rest =>
@@ -152,8 +264,89 @@ def segBoundary2 (s0 s1 c : V2 Rat) : Bool :=
   let b := v1.dot (c.sub s0)
   b == 0 || b == v1.dot v1
 
+/-! ### transformed fields, exact mode (`Rect`, dyadic translations, power-of-two scalings)
+
+`x.tsdf3/2 R lo hi xfs q` → what `transform_sdf_exact` + `rect_sdf_exact` require: `in <k · exact face distance>` when
+the inverse image of `q` is in the box, `out <minus the correctly rounded root of the exact squared distance, times k>`
+otherwise.  `x.tcoll3/2 iters contains R lo hi xfs q v` → `ok` iff the value `v` returned by the real
+`ColliderToSDF(TransformCollider(…))` satisfies `transformed_collider_sdf_brackets`: sign ⇔ the inverse image is in the
+box, `| |v| - D | · 2^(iters+1) < D` for the exact distance `D = k · (distance of the inverse image to the faces)`
+(queries whose inverse image is outside the box beyond more than one face have an irrational distance: `skip`). -/
+
+def absQ (x : Rat) : Rat := if x < 0 then -x else x
+
+/-- how far `c` is beyond each face of the box (non-zero entries only): with exactly one entry the distance to the
+box is that entry (rational); with more it is the root of the sum of the squares -/
+def rectExcess (lo hi c : List Rat) : List Rat :=
+  ((lo.zip (hi.zip c)).map fun (l, h, x) => if x < l then l - x else if h < x then x - h else 0).filter (· != 0)
+
+def bracketOk (inside : Bool) (d : Rat) (iters : Nat) (contains : Bool) (v : Rat) : String :=
+  let p : Rat := (2 : Rat) ^ iters
+  if !(1 < d * p && d ≤ p) then "range"
+  else if contains != inside || (0 < v) != inside then "sign"
+  else if absQ (absQ v - d) * (2 * p) < d then "ok" else s!"off {showRat d}"
+
+def handleXformExact (kind : String) (ws : List String) : Option String := do
+  match kind, ws with
+  | "x.tsdf3", ws =>
+      let (sh, ws) ← pShape3 parseRat ws
+      let (ts, ws) ← pXfs3 parseRat ws
+      let (q, _) ← pV3 parseRat ws
+      match sh with
+      | .rect lo hi =>
+          let c' := xfApply3 (xfInverse3 ts) q
+          if rectContains3 lo hi c' then some s!"in {showRat (transformSDF3 ts (sh.sdf envQ) q)}"
+          else
+            let sf ← ratToFloat (c'.sqDist (rectOut3 envQ lo hi c').p)
+            let kf ← ratToFloat (xfDist3 ts 1)
+            some s!"out {hx (-(Float.sqrt sf) * kf)}"
+      | _ => none
+  | "x.tsdf2", ws =>
+      let (sh, ws) ← pShape2 parseRat ws
+      let (ts, ws) ← pXfs2 parseRat ws
+      let (q, _) ← pV2 parseRat ws
+      match sh with
+      | .rect lo hi =>
+          let c' := xfApply2 (xfInverse2 ts) q
+          if rectContains2 lo hi c' then some s!"in {showRat (transformSDF2 ts (sh.sdf envQ) q)}"
+          else
+            let sf ← ratToFloat (c'.sqDist (rectOut2 envQ lo hi c').p)
+            let kf ← ratToFloat (xfDist2 ts 1)
+            some s!"out {hx (-(Float.sqrt sf) * kf)}"
+      | _ => none
+  | "x.tcoll3", iters :: contains :: ws =>
+      let iters ← iters.toNat?
+      let (sh, ws) ← pShape3 parseRat ws
+      let (ts, ws) ← pXfs3 parseRat ws
+      let (q, ws) ← pV3 parseRat ws
+      let (v, _) ← mk1 (← parseRats ws)
+      match sh with
+      | .rect lo hi =>
+          let c' := xfApply3 (xfInverse3 ts) q
+          if rectContains3 lo hi c' then some (bracketOk true (xfDist3 ts (sh.sdf envQ c')) iters (contains == "1") v)
+          else match rectExcess [lo.x, lo.y, lo.z] [hi.x, hi.y, hi.z] [c'.x, c'.y, c'.z] with
+          | [e] => some (bracketOk false (xfDist3 ts e) iters (contains == "1") v)
+          | _ => some "skip"
+      | _ => none
+  | "x.tcoll2", iters :: contains :: ws =>
+      let iters ← iters.toNat?
+      let (sh, ws) ← pShape2 parseRat ws
+      let (ts, ws) ← pXfs2 parseRat ws
+      let (q, ws) ← pV2 parseRat ws
+      let (v, _) ← mk1 (← parseRats ws)
+      match sh with
+      | .rect lo hi =>
+          let c' := xfApply2 (xfInverse2 ts) q
+          if rectContains2 lo hi c' then some (bracketOk true (xfDist2 ts (sh.sdf envQ c')) iters (contains == "1") v)
+          else match rectExcess [lo.x, lo.y] [hi.x, hi.y] [c'.x, c'.y] with
+          | [e] => some (bracketOk false (xfDist2 ts e) iters (contains == "1") v)
+          | _ => some "skip"
+      | _ => none
+  | _, _ => none
+
 def handleExact (kind : String) (ws : List String) : Option String := do
   match kind with
+  | "x.tsdf3" | "x.tsdf2" | "x.tcoll3" | "x.tcoll2" => handleXformExact kind ws
   | "x.mesh" =>
       match ws with
       | gf :: n :: rest =>
